@@ -49,11 +49,14 @@ class Source:
                 lines, start = inspect.getsourcelines(func)
             except OSError:
                 raise Unsupported(f"no source for {func.__module__}.{qual}")
-            for n in ast.walk(tree):
-                if isinstance(n, (ast.FunctionDef, ast.Lambda)) and getattr(n, "lineno", -1) == start \
-                        and (isinstance(n, ast.Lambda) or n.name == func.__name__):
-                    node = n
-                    break
+            want = list(func.__code__.co_varnames[:func.__code__.co_argcount])
+            cands = [n for n in ast.walk(tree)
+                     if isinstance(n, (ast.FunctionDef, ast.Lambda)) and getattr(n, "lineno", -1) == start
+                     and (isinstance(n, ast.Lambda) or n.name == func.__name__)]
+            exact = [n for n in cands if [a.arg for a in n.args.args] == want]
+            if len(exact) > 1:
+                raise Unsupported(f"several lambdas with the same parameters on line {start} of {path}: put them on separate lines")
+            node = exact[0] if exact else (cands[0] if cands else None)
         if node is None:
             raise Unsupported(f"function {func.__module__}.{qual} not found in source")
         return node, module
@@ -99,6 +102,8 @@ class Engine(OpsMixin, ExprMixin, CallMixin, StmtMixin, BuiltinsMixin):
         self.subscript_models = {}
         self.binop_models = {}
         self.ufun_rewrites = {}
+        self.const_overrides = {}   # (module name, global name) -> python object standing in for a module-level table
+        self.py_method_models = {}
         self.ghost_defaults = {}    # ghost state present in every function verification: name -> fn(engine) -> Val
         self.coerce_hooks = {}
         self.binder_depth = 0
@@ -246,8 +251,6 @@ class Engine(OpsMixin, ExprMixin, CallMixin, StmtMixin, BuiltinsMixin):
         self.current_inputs = {k: v.t for k, v in inputs.items()}
         for gname, gfn in self.ghost_defaults.items():
             st.ghost[gname] = gfn(self)
-        if c.ghost_init is not None:
-            c.ghost_init(self, st)
         for oname, ofn in c.observe.items():
             import inspect as _i
             ov = self.eval_spec_fn(st, ofn, {p_: env[p_] for p_ in _i.signature(ofn).parameters})
@@ -262,6 +265,8 @@ class Engine(OpsMixin, ExprMixin, CallMixin, StmtMixin, BuiltinsMixin):
         if c.decreases is not None:
             self.current_measure = self.eval_spec_fn(st, c.decreases, env)
         pre_state = st.copy()
+        if c.ghost_init is not None:
+            c.ghost_init(self, st)      # ghost effects of entering the function (after the pre-state snapshot)
         # materialise every declared heap field so that frame conditions can be stated against the entry heap
         for cls_, flds_ in self.reg.fields.items():
             if self.reg.kind.get(cls_) == "ref":
@@ -335,6 +340,17 @@ class Engine(OpsMixin, ExprMixin, CallMixin, StmtMixin, BuiltinsMixin):
     def frame_obligations(self, s, pre_state, c):
         """Every heap field the body wrote must be listed in the contract's frame (modifies), except on objects
         the function allocated itself."""
+        # ghost state (file-system effect sets ...) not listed in the contract's frame must be unchanged
+        for g in self.ghost_defaults:
+            if g in c.modifies_ghost:
+                continue
+            cur, old = s.ghost.get(g), pre_state.ghost.get(g)
+            if cur is None or old is None or cur.t.eq(old.t):
+                continue
+            saved = s.flow
+            s.flow = None
+            self.emit(s, f"frame/{g}", cur.t == old.t, note=f"ghost state {g} changes but is not in the contract's frame (effects)")
+            s.flow = saved
         allowed = set(m.split("@")[0] for m in c.modifies if "@" not in m)
         targeted = {}
         for m in c.modifies:
